@@ -625,6 +625,81 @@ func tableManyPairs(tr *tracer.T, rng *rand.Rand) {
 	}
 }
 
+// recWriter captures every Write call as one record (commandSnapshot writes one marshalled command per call)
+type recWriter struct{ recs [][]byte }
+
+func (w *recWriter) Write(p []byte) (int, error) {
+	w.recs = append(w.recs, append([]byte{}, p...))
+	return len(p), nil
+}
+
+// tableSnapConc : C07 point-in-time. A writer applies updates back to back while command snapshots
+// (Lookup(SnapshotRequest), the source of backups and follower recovery streams) are taken; each snapshot must be
+// the content at EXACTLY the index it declares.
+func tableSnapConc(tr *tracer.T, rng *rand.Rand, nUpd int) {
+	tr.Emit(map[string]any{"ev": "reset"})
+	r := newRep(1, fsm.RecoveryTypeSnapshot)
+	defer r.close()
+	r.update(tr, []logEntry{{I: 1, LI: -1, C: m.Cmd{T: "PUT", K: []byte("k0"), V: []byte{0}}}})
+	tr.Emit(map[string]any{"ev": "rec_start"})
+	type snap struct {
+		idx   uint64
+		pairs []m.KV
+	}
+	var snaps []snap
+	var mu sync.Mutex
+	stop := make(chan struct{})
+	var wg sync.WaitGroup
+	for g := 0; g < 2; g++ {
+		wg.Add(1)
+		go func() {
+			defer wg.Done()
+			for {
+				select {
+				case <-stop:
+					return
+				default:
+				}
+				w := &recWriter{}
+				res, err := r.f.Lookup(fsm.SnapshotRequest{Writer: w, Stopper: make(chan struct{})})
+				if err != nil {
+					die("snapshot lookup: %v", err)
+				}
+				var pairs []m.KV
+				for _, rec := range w.recs {
+					c := &regattapb.Command{}
+					if err := c.UnmarshalVT(rec); err != nil {
+						die("snapshot record: %v", err)
+					}
+					pairs = append(pairs, m.KV{K: append([]byte{}, c.Kv.Key...), V: append([]byte{}, c.Kv.Value...)})
+				}
+				mu.Lock()
+				if len(snaps) < 60 {
+					snaps = append(snaps, snap{res.(*fsm.SnapshotResponse).Index, pairs})
+				}
+				mu.Unlock()
+			}
+		}()
+	}
+	nk := 3 + rng.Intn(5)
+	for u := 0; u < nUpd; u++ {
+		k := []byte(fmt.Sprintf("k%d", rng.Intn(nk)))
+		c := m.Cmd{T: "PUT", K: k, V: []byte{byte(u), byte(u >> 8)}}
+		if u%9 == 4 {
+			c = m.Cmd{T: "DEL", K: k}
+		}
+		r.update(tr, []logEntry{{I: uint64(u + 2), LI: -1, C: c}})
+	}
+	close(stop)
+	wg.Wait()
+	for _, s := range snaps {
+		if s.pairs == nil {
+			s.pairs = []m.KV{}
+		}
+		tr.Emit(map[string]any{"ev": "snap_at", "index": s.idx, "pairs": s.pairs})
+	}
+}
+
 func init() {
 	subcmds["table"] = func(args []string) int {
 		fs := flag.NewFlagSet("table", flag.ExitOnError)
@@ -719,6 +794,8 @@ func init() {
 				tableConverge(tr, rng, lg, p)
 			case "conc":
 				tableConc(tr, rng, *ops)
+			case "snapconc":
+				tableSnapConc(tr, rng, *ops)
 			case "bigscan":
 				if b%3 == 2 && *mix != "witness" {
 					tableManyPairs(tr, rng)
